@@ -10,6 +10,7 @@ LEVEL = "proof"
 COQ_FILES = ["Tie/C19_tie.v", "Props/C19_props.v"]
 PROPS_FILES = ["C19_props.v"]
 TRUSTED_BASE = [
+    "vlib/symex.py (symbolic execution of the translated Python subset on the ast: the translator reads value / outcome trees, so local names, intermediates, helpers and the form of branches do not matter; its assumptions - pure expressions, opaque calls, no aliasing writes, try handlers not modelled - are listed in DESIGN.md 12.7; fail-closed)",
     "vlib/opir.py (operator terms of MRILogLikelihood.forward and ConjGrad._A_star_op/_A_star_A_op/B_op, shared with C03) and py2gallina unit 'cg' (the update expressions of ConjGrad.cg over abstract vector-space operations)",
     "hypotheses of the gradient theorem, all explicit: the forward operator is linear with the backward operator as its adjoint (unitary / normalised FFT), coil expansion and reduction are linear and adjoint (C02), masking is linear, self-adjoint and idempotent (C03), real symmetric bilinear inner products",
     "numerical agreement with autograd / a dense solve is validation of these hypotheses for torch (tolerances 1e-4), not proof; convergence 'to solver tolerance' of conjugate gradients is only validated numerically (the theorems give the residual invariant and the fixed point)",
